@@ -773,6 +773,15 @@ func runC08(r *hx.Run) error {
 		{[]ev{d("\x1b]0;t\x1b"), w, d("\\"), g, d("z")}, 'E'},
 		{[]ev{d("\x1b"), w, d("\x1b"), w, d("[A"), g}, 'E'}, // two callbacks in flight
 		{[]ev{d("\x1b"), w, ev{kind: 'c'}, d("q"), g}, 'E'},
+		// followers that `anywhere` handles itself (CAN, SUB, another ESC) must outdate the callback too
+		{[]ev{d("\x1b"), w, d("\x18"), g, d("a")}, 'E'},
+		{[]ev{d("\x1b"), w, d("\x1a"), g}, 'E'},
+		{[]ev{d("\x1b"), w, d("\x18")}, 'X'},
+		{[]ev{d("\x1b"), w, d("\x1b"), g, d("[A")}, 'E'},
+		{[]ev{d("\x1b"), w, d("\x1b[A"), g, d("b")}, 'E'},
+		{[]ev{d("\x1b]0;t\x1b"), w, d("\x18"), g, d("\x1b\\")}, 'E'},
+		{[]ev{d("\x1bP1$r\x1b"), w, d("\x1a\x1b\\"), g}, 'E'},
+		{[]ev{d("x\x1b"), w, d("\x1b"), w, d("\x18"), g, d("y")}, 'E'},
 	} {
 		hooked = append(hooked, kase{s: script{evs: sh.evs, end: sh.end}, consumer: consumers[i%len(consumers)], kind: "timer-callback-delayed"})
 	}
